@@ -95,7 +95,7 @@ def run(ctx, rep):
             rec += [cs for cs in c.calls() if cs.name in builders and cs.callee != f.path and cs.callee in F.fns]
         for cs in rec:
             rep.violation("C16.arms", name + ":recursion", "%s recurses through %s" % (name, cs.callee), cs.where())
-    rep.floor("C16.arms", sum(1 for o in rep.oks if o[0] == "C16.arms"), 18)
+    rep.floor("C16.arms", rep.instances("C16.arms"), 18)
 
     # ---------- fragments are parametric ----------
     frags = [f for p, f in F.fns.items() if p.startswith(SER) and "::tests::" not in p]
